@@ -105,6 +105,8 @@ pub struct MemWs {
     sh: Sh,
     /// 0 = no delivery jitter
     jitter: bool,
+    /// answer `Ping` with `Pong` automatically, as WebSocket implementations do
+    pub auto_pong: bool,
 }
 
 fn new_link(cap: usize) -> Link {
@@ -121,7 +123,7 @@ pub fn pair(sh: &Sh, caps: [usize; 2], faults: [Option<FaultPlan>; 2], jitter: b
             EpState { src: Src::Normal, sink: Sink::Normal, close_never_completes: false, fault: f1, fired: false, flush_pending_left: 0 },
         ],
     }));
-    (MemWs { ep: 0, net: net.clone(), sh: sh.clone(), jitter }, MemWs { ep: 1, net: net.clone(), sh: sh.clone(), jitter }, net)
+    (MemWs { ep: 0, net: net.clone(), sh: sh.clone(), jitter, auto_pong: true }, MemWs { ep: 1, net: net.clone(), sh: sh.clone(), jitter, auto_pong: true }, net)
 }
 
 fn io_err(what: &str) -> Error {
@@ -339,6 +341,13 @@ impl WebSocket for MemWs {
                             if let Some(w) = n.links[e].rx_waker.take() {
                                 w.wake();
                             }
+                        }
+                    }
+                    if m == Message::Ping && self.auto_pong && n.eps[e].sink == Sink::Normal && !n.links[e].close_queued {
+                        n.links[e].q.push_back(Message::Pong);
+                        n.links[e].sent += 1;
+                        if let Some(w) = n.links[e].rx_waker.take() {
+                            w.wake();
                         }
                     }
                     self.sh.log(Ev::Dlv { ep: self.ep, m: Wm::of(&m) });
